@@ -187,7 +187,7 @@ pub fn cells() -> Vec<Cell> {
                 (MOp::SetTemp, 0),
                 (MOp::PutTemp, 0),
             ];
-            for pop in [0u8, 4u8] {
+            for pop in [0u8, 3u8, 4u8] {
                 ops.push((MOp::Ensure, pop));
                 for a in [crate::ops::Act::Accept, crate::ops::Act::Promote, crate::ops::Act::Replace] {
                     ops.push((MOp::Gou(a), pop));
@@ -285,7 +285,7 @@ fn concurrent_check(x: &crate::sched::Execution) -> Vec<(String, String)> {
 pub fn run(_tier: Tier, shard: Shard, rep: &mut Report) {
     rep.rule = "full matrix: write side {none, plain, sharded(3)} x read-only list {[], [p], [s], [p,p], [p,s], [s,p], [s,s]} x \
         per-level content {nothing, A, B} (sharded levels: value in the primary or the secondary shard) x operation {get, touch, \
-        set, put, set_temp_file, put_temp_file, ensure, get_or_update x {Accept, Promote, Replace}} x populate {value, error}, no \
+        set, put, set_temp_file, put_temp_file, ensure, get_or_update x {Accept, Promote, Replace}} x populate {value, NotFound, other error}, no \
         checker; oracle = stack-resolution reference model on result, judge arguments, populate arguments, per-level before/after \
         snapshots, trace (no level after the first hit is touched), temp-file and source residue. Plus: get_or_update with Replace racing with another writer of the same key (all \
         schedules with <= 2 preemptions): it must return the value it populated. Non-trivial = >= 2 levels and at least one copy present."
